@@ -88,6 +88,17 @@ def _t_between_args(v, lo, hi):
     return isinstance(v, (int, float)) and not isinstance(v, bool) and isinstance(lo, (int, float)) and lo <= v < hi
 
 
+def _make_above(limit):
+    def above(v):  # every closure made here shares module and qualified name
+        return isinstance(v, (int, float)) and not isinstance(v, bool) and v > limit
+
+    return above
+
+
+_ABOVE_0, _ABOVE_1 = _make_above(0), _make_above(1.5)
+_LAM_A, _LAM_B = (lambda v: v == "a"), (lambda v: v == "B")  # two lambdas from one source line
+
+
 TESTS = {
     "is_none": _t_is_none,
     "truthy": _t_truthy,
@@ -102,6 +113,10 @@ TESTS = {
     "gt_arg": _t_gt_arg,
     "startswith_arg": _t_startswith_arg,
     "between_args": _t_between_args,
+    "above_0": _ABOVE_0,
+    "above_1": _ABOVE_1,
+    "lam_a": _LAM_A,
+    "lam_b": _LAM_B,
 }
 
 
@@ -259,7 +274,7 @@ class _Fail(Exception):
 
 def _resolve(ast_attr, path, mp):
     if ast_attr == "time":
-        value = from_us(mp.t)
+        value = None if mp.t is None else from_us(mp.t)
     elif ast_attr == "measurement":
         value = mp.m
     elif ast_attr == "tags":
@@ -299,7 +314,7 @@ def holds(ast, mp):
         return False
     if kind == "cmp":
         op, rhs = ast[3], ast[4]
-        if ast[1] == "time" and not has_map(ast[2]) and is_time_rhs(rhs):
+        if ast[1] == "time" and not has_map(ast[2]) and is_time_rhs(rhs) and mp.t is not None:
             # Comparison of instants at microsecond resolution.
             return bool(OPS[op](mp.t, rhs[1]))
         try:
